@@ -128,6 +128,14 @@ CHECKS = {
         "DESIGN.md section 6 C14",
         "E1",
     ),
+    "C15": (
+        "fault_enumeration",
+        "exhaustive single-fault injection: a writer/reader whose k-th public call raises, for every k of the fault-free run, for every generated class reachable from every program instance, both entry modes; plus every validation-error path",
+        "All fault points (deviation bound 1) of serialize and deserialize of every valid body's classes incl. nested struct and case-data classes, both entry modes; mode restored and the injected exception propagated unchanged.",
+        "The mode property itself is not faulted; one fault per execution (the restoring path performs no faultable call).",
+        "DESIGN.md section 6 C15",
+        "E3 x E2",
+    ),
     "C16": (
         "exploration",
         "bounded program x input enumeration: single-deviation neighbourhood of valid objects (every declaration-violating change at every field at every depth), classified by the reference semantics, executed on the generated serializer",
